@@ -16,7 +16,7 @@ import (
 var (
 	now     = time.Date(2024, 1, 1, 0, 0, 0, 0, time.UTC)
 	uAlpha  = []float64{0, 0.125, 0.25, 0.375, 0.5}
-	jitters = []float64{0, 1, 20, 50, 99, 99.9}
+	jitters = []float64{0, 0.01, 0.5, 0.99, 1, 20, 50, 99, 99.9}
 )
 
 type rateSeq struct {
